@@ -514,13 +514,14 @@ class SymCtx:
         self.hints = {}
 
     # -- inputs
-    def real(self, name, nan=False, hint=None):
+    def real(self, name, nan=False, hint=None, flag=None):
+        """nan=True: the value has its own NaN flag; flag=<bool>: NaN flag shared with other inputs."""
         v = z3.Real(name)
         if hint is not None:
             self.hints[name] = (v, hint)
-        if isinstance(nan, SymBool):          # NaN flag shared with other inputs
+        if flag is not None:
             self.inputs[name] = ('real', v)
-            return SymReal(v, nan.z)
+            return SymReal(v, _zb(flag))
         if nan:
             n = z3.Bool(name + '?nan')
             self.inputs[name] = ('realnan', (v, n))
@@ -740,10 +741,10 @@ class ConCtx:
         self.notes = {}
         self.stats = Stats()
 
-    def real(self, name, nan=False, hint=None):
-        if nan is True or nan is False:      # own flag ('nan' is stored as the value) or none
-            return to_float(self.values[name])
-        return float('nan') if bool(nan) else to_float(self.values[name])   # shared flag
+    def real(self, name, nan=False, hint=None, flag=None):
+        if flag is not None:                 # shared flag
+            return float('nan') if bool(flag) else to_float(self.values[name])
+        return to_float(self.values[name])   # own flag: 'nan' is stored as the value
 
     def int(self, name, lo=None, hi=None):
         return int(self.values[name])
